@@ -71,6 +71,54 @@ func VerifC15RoundTrip() {
 	}
 }
 
+// verifLongLens: element lengths around the buffer sizes on the path (bufio.Scanner's 4 KiB start
+// buffer and its doublings up to the 64 KiB token cap) up to the 60 KiB the property promises.
+var verifLongLens = []int{4095, 4096, 4097, 8192, 16384, 32767, 32768, 32769, 40000, 61440}
+
+// VerifC15Long: a list with one long element (length from verifLongLens, filler bytes with a
+// symbolic first and last byte) between two short symbolic elements round-trips like any other.
+func VerifC15Long() {
+	mx.Init()
+	dt := verifTypes[rt.Choice("type", len(verifTypes))]
+	nl := rt.Param("lens")
+	L := verifLongLens[rt.Choice("long", nl)]
+	long := make([]byte, L)
+	for i := range long {
+		long[i] = 'a'
+	}
+	ends := rt.Bytes("ends", 2)
+	for _, c := range ends {
+		rt.Assume(rt.And(c > ' ', c <= '~'))
+	}
+	long[0], long[L-1] = ends[0], ends[1]
+	before := verifList(dt, rt.Choice("before", 2), 1)
+	after := verifList(dt, rt.Choice("after", 2), 1)
+	list := append(append(before, long), after...)
+
+	s := streams.NewStdin()
+	s.SetDataType(dt)
+	w, err := s.WriteArray(dt)
+	rt.Assert(err == nil, "no array writer for the type")
+	for _, e := range list {
+		rt.Assert(w.Write(e) == nil, "array writer failed")
+	}
+	rt.Assert(w.Close() == nil, "array writer Close failed")
+	var got [][]byte
+	err = s.ReadArray(context.Background(), func(b []byte) {
+		got = append(got, append([]byte{}, b...))
+	})
+	rt.Assert(err == nil, "ReadArray failed on a list with an element of at most 60 KiB")
+	rt.Reach("long-read-back")
+	rt.Assert(len(got) == len(list), "number of elements read back differs from the number written (long element)")
+	for i := range list {
+		rt.Assert(len(got[i]) == len(list[i]), "length of an element read back differs (long element)")
+		if len(list[i]) > 0 {
+			rt.Assert(got[i][0] == list[i][0], "first byte of an element read back differs (long element)")
+		}
+	}
+	rt.Assert(string(got[len(before)]) == string(long), "the long element read back differs from the element written")
+}
+
 // ---- foreach ----
 
 var (
